@@ -1,6 +1,7 @@
 package mon
 
 import (
+	"encoding/json"
 	"fmt"
 	"verifharness/gen"
 
@@ -93,5 +94,45 @@ func init() {
 		idx, _ := witnessInt(w, "case")
 		rep.Eval(1)
 		checkC04Case(c04Case(ctx, idx), rep, gen.Rng(ctx.Seed, "c04w", idx), ctx.Pick(5, 9))
+	}}
+}
+
+func init() {
+	Registry["C03"] = Monitor{Run: RunC03, Replay: func(ctx *core.Ctx, rep *core.Report, w map[string]any) {
+		rep.Eval(1)
+		if id, ok := witnessInt(w, "small_file"); ok {
+			checkSmallFile(id, rep, true)
+			return
+		}
+		if id, ok := witnessInt(w, "random_file"); ok {
+			checkC03Random(ctx, id, rep)
+		}
+	}}
+}
+
+func init() {
+	Registry["C12"] = Monitor{Run: RunC12, Replay: func(ctx *core.Ctx, rep *core.Report, w map[string]any) {
+		idx, _ := witnessInt(w, "case")
+		var c *Case
+		if idx >= 4_000_000 {
+			c = smallContent(ctx, idx-4_000_000)
+		} else {
+			c = c12Content(ctx, idx)
+		}
+		var l Layout
+		b, _ := json.Marshal(w["layout"])
+		if err := json.Unmarshal(b, &l); err != nil {
+			rep.Inconclusive("witness layout unreadable: " + err.Error())
+			return
+		}
+		runLayout(c, l, expect(c), rep, "replay")
+	}}
+}
+
+func init() {
+	Registry["C11"] = Monitor{Run: RunC11, Replay: func(ctx *core.Ctx, rep *core.Report, w map[string]any) {
+		idx, _ := witnessInt(w, "c11_case")
+		rep.Eval(1)
+		checkC11Case(ctx, idx, rep)
 	}}
 }
